@@ -19,7 +19,7 @@ RULE = ("Cases: 1..3 torrents (tree of non-zero bytes x P x creator incl. v1, v2
         "a decoy present, or v2/hybrid. Distinct = distinct canonical case JSON.")
 ASSUMPTIONS = [
     "vf/ref/recheck.py reference verifier; own metafiles are correct per C01-C03",
-    "payload bytes are non-zero; metafiles are the tool's default (non-aligned) output",
+    "payload bytes are non-zero (or the whole torrent consists of empty files); metafiles are the tool's own output, plain or aligned (--align)",
     "BEP 52 cannot tell a directory holding one same-named file from a single file: such trees are not generated",
 ]
 BUDGET = {
